@@ -431,7 +431,7 @@ func Run(c *hx.Ctx) {
 		runScript(c, sc, n, "fixed")
 		n++
 	}
-	total := c.N(70, 600)
+	total := c.N(50, 600)
 	for i := 0; i < total; i++ {
 		generate(c, n, i)
 		n++
